@@ -12,6 +12,12 @@
     component "/".
   * `info['pieces']` carries a ghost stamp: the content path, the layout and the piece length it
     was computed for, and the number of digests stored.
+  * The class of the objects is part of the world (`Env.rules`): `calculate_piece_size` is an
+    overridable method ("It is safe to override this method"), and the stock method raises
+    `OverflowError` for sizes beyond the range of a float.  So `piece_size = None` (`recalc`) can
+    **fail** — the method raises, or the setter rejects the value it returned — and it is the last
+    statement of `_set_files`: a failing content assignment leaves the new file list (without
+    hashes) and the previous piece length behind, and the object may be used again.
   * The four filter lists (`exclude_globs`, `include_globs`, `exclude_regexs`, `include_regexs`)
     are `utils.MonitoredList`s with the callback `_filters_changed`: `namespace ML` models the
     list operations (slice and index assignment as repaired by e62ce6d: coerce every new item
@@ -41,6 +47,11 @@ inductive Err
   | regex   -- `re.error`: `re.compile` rejected an item given to a regex filter list
   | index   -- `IndexError`: `lst[i] = v` / `lst.pop(i)` with `i` out of range
   | value   -- `ValueError`: `lst.remove(x)` with `x` not in the list
+  | calcRaised (name : String)  -- the class's `calculate_piece_size` raised (exception type `name`;
+                          -- the stock method: `OverflowError` beyond the range of a float)
+  | calcRejected  -- `PieceSizeError` raised by the `piece_size` setter for the value that
+                  -- `calculate_piece_size` returned (ghost tag: the same exception type as
+                  -- `pieceSize`, told apart only to state which failures are the recalculation's)
   | internal (what : String)
 deriving DecidableEq, Repr, Inhabited
 
@@ -91,10 +102,32 @@ structure St where
   comment : Option String := none
 deriving DecidableEq, Repr, Inhabited
 
-/-- the file system as far as `list_files`, `real_size`, `os.path.exists/isdir/isfile` see it -/
+/-- what a call of the class's `calculate_piece_size(size, min_size, max_size)` does: return a
+    number or raise -/
+inductive CalcOut
+  | value (x : Int)
+  | raise (name : String)
+deriving DecidableEq, Repr, Inhabited
+
+/-- one clause of an overriding `calculate_piece_size` ("It is safe to override this method"):
+    for `lo ≤ size` (and `size < hi`) the method does `out` -/
+structure CalcRule where
+  lo : Nat
+  hi : Option Nat := none
+  out : CalcOut
+deriving DecidableEq, Repr, Inhabited
+
+def CalcRule.covers (r : CalcRule) (size : Nat) : Bool :=
+  decide (r.lo ≤ size) && (match r.hi with | none => true | some h => decide (size < h))
+
+/-- the world the operations run in: the file system as far as `list_files`, `real_size`,
+    `os.path.exists/isdir/isfile` see it, and the class of the objects as far as it matters here —
+    `rules`: the clauses of an overriding `calculate_piece_size` (`[]`: the stock class; sizes no
+    clause covers fall through to the stock method) -/
 structure Env where
   files : List (Path × Nat)
   dirs : List Path := []
+  rules : List CalcRule := []
 deriving Repr, Inhabited
 
 def kib16 : Nat := 16384
@@ -177,6 +210,18 @@ def rawPieceSize (size : Nat) : Nat :=
 def calcPieceSize (size pmin pmax : Nat) : Nat :=
   min (max (rawPieceSize size) pmin) pmax
 
+/-- the stock method divides `size / max_pieces` in floating point: from here on (at the latest)
+    it raises `OverflowError` ("integer division result too large for a float") -/
+def floatLimit : Nat := 2 ^ 1036
+
+/-- `type(self).calculate_piece_size(size, min_size=pmin, max_size=pmax)` -/
+def calcOf (env : Env) (size pmin pmax : Nat) : CalcOut :=
+  match env.rules.find? (·.covers size) with
+  | some r => r.out
+  | none =>
+    if floatLimit ≤ size then .raise "OverflowError"
+    else .value (calcPieceSize size pmin pmax : Nat)
+
 /-! ### piece size and its bounds -/
 
 /-- `utils.is_divisible_by_16_kib` -/
@@ -192,13 +237,43 @@ def checkAndStore (s : St) (x : Int) : St × Res :=
     let pieces := if s.pl ≠ some pl then none else s.pieces
     ({ s with pieces := pieces, pl := some pl }, .ok)
 
-/-- `Torrent.piece_size = v` -/
+/-- `Torrent.piece_size = v` of the stock class for sizes below the float limit
+    (`calculate_piece_size` = `calcPieceSize`; the general `None` route is `recalc`, the two agree
+    where the class's method is the integer function: `recalc_stock`).  The bound setters use it
+    with `some`. -/
 def setPieceSize (s : St) (v : Option Int) : St × Res :=
   match v with
   | none =>
     if size s ≤ 0 then ({ s with pl := none }, .ok)
     else checkAndStore s (calcPieceSize (size s) s.pmin s.pmax : Nat)
   | some x => checkAndStore s x
+
+/-- `Torrent.piece_size = None`: remove the piece length if there is no content, else ask the
+    class's `calculate_piece_size` and hand its answer to the checks of the setter.  **Both can
+    fail** — the method raises, or it returns a value the setter rejects with `PieceSizeError` —
+    and then the state is left exactly as the caller had made it (in `_set_files`: the new file
+    list with the previous piece length). -/
+def recalc (env : Env) (s : St) : St × Res :=
+  if size s ≤ 0 then ({ s with pl := none }, .ok)
+  else
+    match calcOf env (size s) s.pmin s.pmax with
+    | .raise n => (s, .err (.calcRaised n))
+    | .value x =>
+      match checkAndStore s x with
+      | (s', .ok) => (s', .ok)
+      | (s', .err _) => (s', .err .calcRejected)
+
+/-- `Torrent.piece_size = v` of the class described by `env` -/
+def setPieceSizeE (env : Env) (s : St) (v : Option Int) : St × Res :=
+  match v with
+  | none => recalc env s
+  | some x => checkAndStore s x
+
+/-- the operation failed inside the recalculation of the piece length -/
+def Res.faulted : Res → Bool
+  | .err (.calcRaised _) => true
+  | .err .calcRejected => true
+  | _ => false
 
 /-- tail of the `piece_size_min` setter, run after the bound was stored (also for `None`):
     `if self.piece_size: self.piece_size = max(self.piece_size_min, self.piece_size)` — goes
@@ -330,8 +405,9 @@ def setFilesCore (env : Env) (s : St) (files : List (Path × Nat)) (basepath : O
   -- every branch pops 'pieces'
   let s1 := { s with content := cn.1, name := cn.2, pieces := none }
   let s2 := { s1 with path := if basepath.isSome && env.exists bp then basepath else none }
-  -- calculate new piece size (may raise PieceSizeError, leaving s2 behind)
-  setPieceSize s2 none
+  -- calculate new piece size (may raise — PieceSizeError, or whatever the class's
+  -- `calculate_piece_size` raises —, leaving s2 behind: new files, no hashes, old piece length)
+  recalc env s2
 
 /-- `Torrent.path = v` -/
 def setPath (env : Env) (s : St) (v : Option Path) : St × Res :=
@@ -609,7 +685,7 @@ def apply (env : Env) (s : St) : Op → St × Res
   | .glob inc o => applyL env (fun _ => true) (getGlobs · inc) (putGlobs · inc) s o
   | .rx inc o => applyL env Rx.valid (getRxs · inc) (putRxs · inc) s o
   | .setName n => (setName s n, .ok)
-  | .setPieceSize v => setPieceSize s v
+  | .setPieceSize v => setPieceSizeE env s v
   | .setMin v => setMin s v
   | .setMax v => setMax s v
   | .generate => generate env s
